@@ -3,6 +3,8 @@
 // history per line:
 //
 //	L <op;op;…>      list history.  Ops: at:N last end find:P (each hands out cursor #0,#1,…)
+//	                 copy:K (d := *c, a new cursor) assign:K:J (*cK = *cJ)
+//	                 nilcur (a nil *Cursor) zerocur (new(Cursor): pred == nil)
 //	                 get:K set:K:V atend:K next:K push:K:V add:K:V+V+… (add:K:. = no values)
 //	                 rm:K trunc:K   clear peek:N each:P len empty
 //	Q n|z <op;…>     queue history from NewQueue (n) or a zero Queue (z).
@@ -17,6 +19,10 @@
 //	L: result / Each(all) / Len / IsEmpty / for every cursor handed out so far AtEnd.Get
 //	Q: result / Each(all) / Len / IsEmpty / Front / Peek(1)
 //	S: result / Slice / Each(all) / Len / IsEmpty / Top / Peek(1)
+//
+// S slice prints "lnil" instead of "l." when an empty stack returns a non-nil slice, and any
+// observation gets a trailing "/ALIAS" when a slice returned earlier by Slice (kept, with one
+// element appended into whatever spare capacity it has) was changed by a later stack operation.
 //
 // Results: u (no value), vN, b0|b1, pN:b (value, ok), l<ints>, nN, Pc (panic "invalid
 // cursor"), Pi (index out of range), Pn (nil dereference), Po (other panic), nocur, ? (bad op).
@@ -180,6 +186,47 @@ func execList(ops []string) string {
 			if p, ok := pred(f[1]); ok {
 				res = mk(func() *mlink.Cursor[int] { return lst.Find(p) })
 			}
+		case f[0] == "copy" && len(f) == 2: // Cursor is a value type: d := *c
+			if k, ok := atoi(f[1]); ok && k >= 0 {
+				switch {
+				case k >= len(cur):
+					res = "nocur"
+				case cur[k] == nil:
+					cur = append(cur, nil)
+					res = "u"
+				default:
+					d := *cur[k]
+					cur = append(cur, &d)
+					res = "u"
+				}
+			}
+		case f[0] == "assign" && len(f) == 3: // *cK = *cJ
+			k, ok1 := atoi(f[1])
+			j, ok2 := atoi(f[2])
+			if ok1 && ok2 && k >= 0 && j >= 0 {
+				switch {
+				case k >= len(cur) || j >= len(cur):
+					res = "nocur"
+				case cur[j] == nil && cur[k] == nil:
+					res = "u"
+				case cur[j] == nil:
+					*cur[k] = mlink.Cursor[int]{}
+					res = "u"
+				case cur[k] == nil:
+					d := *cur[j]
+					cur[k] = &d
+					res = "u"
+				default:
+					*cur[k] = *cur[j]
+					res = "u"
+				}
+			}
+		case op == "nilcur":
+			cur = append(cur, nil)
+			res = "u"
+		case op == "zerocur":
+			cur = append(cur, new(mlink.Cursor[int]))
+			res = "u"
 		case f[0] == "get" && len(f) == 2:
 			res = withCur(f[1], func(c *mlink.Cursor[int]) string { return "v" + strconv.Itoa(c.Get()) })
 		case f[0] == "set" && len(f) == 3:
@@ -275,6 +322,7 @@ func execQueue(kind string, ops []string) string {
 
 func execStack(ops []string) string {
 	s := stack.New[int]()
+	var kept, snap [][]int // slices returned by Slice earlier, and what they held
 	return steps(ops, func(op string) string {
 		f := strings.Split(op, ":")
 		res := "?"
@@ -309,11 +357,30 @@ func execStack(ops []string) string {
 			res = call(func() string {
 				sl := s.Slice()
 				r := "l" + ints(sl)
-				for i := range sl { // Slice must be a copy
+				if len(sl) == 0 && sl != nil { // "If s is empty, Slice returns nil"
+					r = "lnil"
+				}
+				if len(sl) > 0 {
+					k := append(sl, -55) // into the spare capacity, if there is any
+					kept = append(kept, k)
+					snap = append(snap, append([]int(nil), k...))
+				}
+				for i := range sl { // Slice must be a copy: poison it (kept shares sl's array: re-snapshot)
 					sl[i] = -77
+				}
+				if n := len(kept); len(sl) > 0 {
+					snap[n-1] = append([]int(nil), kept[n-1]...)
 				}
 				return r
 			})
+		}
+		alias := ""
+		for i := range kept {
+			for j := range kept[i] {
+				if kept[i][j] != snap[i][j] {
+					alias = "/ALIAS"
+				}
+			}
 		}
 		return strings.Join([]string{res,
 			call(func() string { return "l" + ints(s.Slice()) }),
@@ -321,7 +388,7 @@ func execStack(ops []string) string {
 			call(func() string { return "n" + strconv.Itoa(s.Len()) }),
 			call(func() string { return "b" + tr.B(s.IsEmpty()) }),
 			call(func() string { return "v" + strconv.Itoa(s.Top()) }),
-			call(func() string { v, ok := s.Peek(1); return "p" + strconv.Itoa(v) + ":" + tr.B(ok) })}, "/")
+			call(func() string { v, ok := s.Peek(1); return "p" + strconv.Itoa(v) + ":" + tr.B(ok) })}, "/") + alias
 	})
 }
 
@@ -377,12 +444,17 @@ func rpred(r *tr.Rand) string {
 	return "e" + strconv.Itoa(r.Range(0, 9))
 }
 
+// extreme offsets: the minimum int (whose negation overflows), its neighbours, the maximum int
+var extremes = []string{"-9223372036854775808", "-9223372036854775807", "9223372036854775807", "9223372036854775806", "-2"}
+
 func idx(r *tr.Rand) string {
-	switch r.Intn(10) {
+	switch r.Intn(12) {
 	case 0:
 		return "-1"
 	case 1:
 		return strconv.Itoa(r.Range(5, 12))
+	case 2:
+		return tr.Pick(r, extremes)
 	}
 	return strconv.Itoa(r.Range(0, 4))
 }
@@ -393,15 +465,23 @@ func randList(r *tr.Rand, n int) []string {
 	var ops []string
 	ncur := 0
 	newCur := func() {
-		switch r.Intn(8) {
-		case 0:
+		switch c := r.Intn(12); {
+		case c == 0:
 			ops = append(ops, "last")
-		case 1:
+		case c == 1:
 			ops = append(ops, "end")
-		case 2:
+		case c == 2:
 			ops = append(ops, "find:"+rpred(r))
+		case c <= 5 && ncur > 0: // a copy of an existing cursor (possibly a stale or nil one)
+			ops = append(ops, "copy:"+strconv.Itoa(r.Intn(ncur)))
+		case c == 6 && r.Chance(1, 3):
+			ops = append(ops, tr.Pick(r, []string{"nilcur", "zerocur"}))
 		default:
-			ops = append(ops, "at:"+idx(r))
+			i := idx(r)
+			ops = append(ops, "at:"+i)
+			if strings.HasPrefix(i, "-") { // panics: no cursor handed out
+				return
+			}
 		}
 		ncur++
 	}
@@ -418,6 +498,10 @@ func randList(r *tr.Rand, n int) []string {
 			continue
 		}
 		k := strconv.Itoa(r.Intn(ncur))
+		if r.Chance(1, 25) {
+			ops = append(ops, "assign:"+k+":"+strconv.Itoa(r.Intn(ncur)))
+			continue
+		}
 		switch r.Intn(22) {
 		case 0, 1:
 			ops = append(ops, "push:"+k+":"+val(r))
@@ -479,7 +563,55 @@ func listTags(in, out string) (bool, []string) {
 	if strings.Contains(out, "b1.v0") {
 		tags = append(tags, "cursor-at-end")
 	}
-	return len(tags) > 0, tags
+	if strings.Contains(out, "Pn") {
+		tags = append(tags, "nil-cursor-observed")
+	}
+	// a copy taken from a cursor that was stale or nil at that moment, and copies used afterwards
+	isCopy := map[string]bool{}
+	ncur := 0
+	for i, op := range ops {
+		if i >= len(groups) {
+			break
+		}
+		g := strings.Split(groups[i], "/")
+		f := strings.Split(op, ":")
+		switch f[0] {
+		case "at", "last", "end", "find", "nilcur", "zerocur":
+			if g[0] == "u" {
+				ncur++
+			}
+		case "copy":
+			if g[0] == "u" {
+				if k, ok := atoi(f[1]); ok && 4+k < len(g) {
+					switch {
+					case strings.HasPrefix(g[4+k], "Pc"):
+						tags = append(tags, "copy-of-stale-cursor")
+					case strings.HasPrefix(g[4+k], "Pn"):
+						tags = append(tags, "copy-of-nil-cursor")
+					}
+				}
+				isCopy[strconv.Itoa(ncur)] = true
+				ncur++
+			}
+		case "assign":
+			if g[0] == "u" {
+				tags = append(tags, "cursor-assigned")
+			}
+		case "rm", "trunc", "push", "add", "set", "next":
+			if isCopy[f[1]] && g[0] != "nocur" {
+				tags = append(tags, "edit-or-move-through-copy")
+			}
+		}
+	}
+	seen := map[string]bool{}
+	uniq := tags[:0]
+	for _, t := range tags {
+		if !seen[t] {
+			seen[t] = true
+			uniq = append(uniq, t)
+		}
+	}
+	return len(uniq) > 0, uniq
 }
 
 func queueTags(in, out string) (bool, []string) {
@@ -534,6 +666,9 @@ func main() {
 				}
 				in := "S " + strings.Join(ops, ";")
 				out := exec(in)
+				if i := strings.Index(in, "slice"); i >= 0 && strings.Contains(in[i:], "push") {
+					tags = append(tags, "slice-kept-across-push")
+				}
 				g.W.Case(in, out, strings.Contains(in, "pop"), tags...)
 			}
 
@@ -543,14 +678,26 @@ func main() {
 			emitL([]string{"at:0", "at:0", "push:0:1", "push:1:2", "next:0", "rm:1", "get:0", "next:0"}, "scripted")
 			emitL([]string{"end", "add:0:1+2+3", "at:1", "at:2", "at:3", "clear", "add:1:.", "add:1:5", "push:2:6", "set:3:1", "end", "add:4:9"}, "scripted")
 			emitL([]string{"last", "set:0:5", "last", "set:1:6", "end", "set:2:7", "set:2:8", "last", "rm:3", "rm:3"}, "scripted")
-			// ---- lists: exhaustive continuations from [1 2 3] with a cursor at every position
-			prefix := []string{"end", "add:0:1+2+3", "at:0", "at:1", "at:2", "at:3"}
+			// cursor copies: a copy is a snapshot that moves on its own; copies of stale / nil cursors
+			emitL([]string{"at:0", "add:0:1+2+3", "at:0", "copy:1", "next:1", "get:1", "get:2", "rm:2", "copy:1", "get:1", "get:3", "assign:1:2", "get:1", "push:1:8", "next:2"}, "scripted")
+			emitL([]string{"end", "add:0:1+2+3+4", "at:1", "copy:1", "next:2", "next:2", "copy:2", "trunc:1", "get:2", "set:3:5", "copy:3", "add:4:6", "assign:3:1", "add:3:7", "len"}, "scripted")
+			emitL([]string{"nilcur", "zerocur", "get:0", "get:1", "set:0:1", "set:1:1", "atend:0", "atend:1", "next:0", "next:1", "push:0:1", "push:1:1", "add:0:.", "add:1:.", "add:0:1", "add:1:1", "rm:0", "rm:1", "trunc:0", "trunc:1", "copy:0", "copy:1", "get:2", "get:3", "at:0", "assign:4:1", "get:4", "assign:0:4", "len"}, "scripted")
+			// extreme offsets (the minimum int, whose negation overflows)
+			for _, x := range extremes {
+				emitL([]string{"end", "add:0:1+2", "at:" + x, "peek:" + x, "get:1", "len"}, "extreme-offset")
+				emitQ("n", []string{"add:1", "add:2", "peek:" + x, "pop"}, "extreme-offset")
+				emitQ("z", []string{"peek:" + x, "add:1", "peek:" + x}, "extreme-offset")
+				emitS([]string{"peek:" + x, "push:1", "peek:" + x, "push:2", "push:3", "peek:" + x, "pop", "peek:" + x}, "extreme-offset")
+			}
+			// ---- lists: exhaustive continuations from [1 2 3] with a cursor at every position,
+			// a copy of the cursor at index 1 (#5) and a nil cursor (#6)
+			prefix := []string{"end", "add:0:1+2+3", "at:0", "at:1", "at:2", "at:3", "copy:2", "nilcur"}
 			var alpha []string
-			for k := 0; k < 5; k++ {
+			for k := 0; k < 7; k++ {
 				ks := strconv.Itoa(k)
 				alpha = append(alpha, "rm:"+ks, "trunc:"+ks, "push:"+ks+":9", "add:"+ks+":7+8", "set:"+ks+":6", "next:"+ks)
 			}
-			alpha = append(alpha, "clear")
+			alpha = append(alpha, "clear", "assign:3:1", "copy:4")
 			depth := g.Scale(2, 3)
 			var rec func(cur []string, d int)
 			rec = func(cur []string, d int) {
@@ -614,7 +761,8 @@ func main() {
 			}
 
 			// ---- stacks
-			salpha := []string{"push:1", "push:2", "pop", "clear", "peek:1", "peek:-1"}
+			emitS([]string{"slice", "push:1", "push:2", "push:3", "slice", "pop", "slice", "push:4", "push:5", "slice", "clear", "slice", "push:6", "slice"}, "scripted")
+			salpha := []string{"push:1", "push:2", "pop", "clear", "peek:1", "peek:-1", "slice"}
 			var srec func(cur []string, d int)
 			srec = func(cur []string, d int) {
 				if len(cur) > 0 {
@@ -644,7 +792,7 @@ func main() {
 					case c == 11:
 						ops = append(ops, "each:"+rpred(g.R))
 					case c == 12:
-						ops = append(ops, tr.Pick(g.R, []string{"top", "len", "empty", "slice"}))
+						ops = append(ops, tr.Pick(g.R, []string{"top", "len", "empty", "slice", "slice", "slice"}))
 					default:
 						ops = append(ops, "clear")
 					}
